@@ -21,7 +21,7 @@ def fvM (d rem : Nat) (v : Mat R) : Mat R :=
 
 /-- retained indices of one iteration -/
 def fvIdx (k : SvdKernels R ρ) (d rem : Nat) (v : Mat R) (tol : ρ) : List Nat :=
-  retainedBondIndices k.dnorm k.dargsort (k.dsvd (fvM d rem v).tab).2.1 tol
+  fvKeep (retainedBondIndices k.dnorm k.dargsort (k.dsvd (fvM d rem v).tab).2.1 tol) (k.dsvd (fvM d rem v).tab).2.1
 
 /-- the tensor appended in one iteration -/
 def fvA (k : SvdKernels R ρ) (d rem : Nat) (v : Mat R) (tol : ρ) : T3 R :=
@@ -52,10 +52,12 @@ def fvMats (k : SvdKernels R ρ) (d : Nat) : Nat → Mat R → ρ → List (Mat 
 def StepExact (k : SvdKernels R ρ) (tol : ρ) (M : Mat R) : Prop :=
   (0 < M.m → 0 < M.n → (k.dsvd M).1.m = M.m ∧ (k.dsvd M).2.2.n = M.n) ∧
   ∀ i < M.m, ∀ j < M.n,
-    ∑ p ∈ range (retainedBondIndices k.dnorm k.dargsort (k.dsvd M).2.1 tol).length,
-      (k.dsvd M).1.f i ((retainedBondIndices k.dnorm k.dargsort (k.dsvd M).2.1 tol).getD p 0) *
-      RealLike.ofReal ((k.dsvd M).2.1.getD ((retainedBondIndices k.dnorm k.dargsort (k.dsvd M).2.1 tol).getD p 0) 0) *
-      (k.dsvd M).2.2.f ((retainedBondIndices k.dnorm k.dargsort (k.dsvd M).2.1 tol).getD p 0) j = M.f i j
+    ∑ p ∈ range (fvKeep (retainedBondIndices k.dnorm k.dargsort (k.dsvd M).2.1 tol) (k.dsvd M).2.1).length,
+      (k.dsvd M).1.f i ((fvKeep (retainedBondIndices k.dnorm k.dargsort (k.dsvd M).2.1 tol) (k.dsvd M).2.1).getD p 0) *
+      RealLike.ofReal ((k.dsvd M).2.1.getD
+        ((fvKeep (retainedBondIndices k.dnorm k.dargsort (k.dsvd M).2.1 tol) (k.dsvd M).2.1).getD p 0) 0) *
+      (k.dsvd M).2.2.f ((fvKeep (retainedBondIndices k.dnorm k.dargsort (k.dsvd M).2.1 tol) (k.dsvd M).2.1).getD p 0) j
+        = M.f i j
 
 theorem ipow_eq (d : Nat) : ∀ n, ipow d n = d ^ n
   | 0 => rfl
@@ -165,8 +167,8 @@ theorem fromVectorLoop_row (k : SvdKernels R ρ) (d : Nat) (tol : ρ) : ∀ (rem
           have := hstep.2 (a * d + s0) (by simpa [fvM] using fused_lt ha hs0) (flat d ss')
             (by simpa [fvM, ipow_eq] using hc)
           rw [Mat.tab_f _ (by simpa [fvM] using fused_lt ha hs0) (by simpa [fvM, ipow_eq] using hc)] at this
-          rw [show retainedBondIndices k.dnorm k.dargsort (k.dsvd (fvM d rem v).tab).2.1 tol
-            = fvIdx k d rem v tol from rfl] at this
+          rw [show fvKeep (retainedBondIndices k.dnorm k.dargsort (k.dsvd (fvM d rem v).tab).2.1 tol)
+              (k.dsvd (fvM d rem v).tab).2.1 = fvIdx k d rem v tol from rfl] at this
           rw [this]
           simp only [fvM, fused_div hs0, fused_mod hs0, ipow_eq]
           rw [flat_cons, flatFrom_eq, hss.tail.1]
